@@ -2388,12 +2388,16 @@ class MutableGitIndexTree(mutabletree.MutableTree, GitTree):
             This method is inventory-specific and should not normally be called.
         """
         # TODO(jelmer): This shouldn't be called, it's inventory specific.
-        for old_path, new_path, _file_id, ie in delta:
+        delta = list(delta)
+        # Remove all old paths before adding any new one: a rename chain
+        # (a -> b, c -> a) must not delete the entry just added at "a".
+        for old_path, _new_path, _file_id, _ie in delta:
             if old_path is not None:
                 (index, old_subpath) = self._lookup_index(encode_git_path(old_path))
                 if old_subpath in index:
                     self._index_del_entry(index, old_subpath)
                     self._versioned_dirs = None
+        for _old_path, new_path, _file_id, ie in delta:
             if new_path is not None and ie.kind != "directory":
                 self._index_add_entry(new_path, ie.kind)
         self.flush()
